@@ -204,34 +204,45 @@ def r3_supermajority(chk):
     tt = _kw(_call(fn, "NonnegMean"), "t")
     chk.ob("C02.R2", where, "values-in-[0,upper_bound]", ok and len(vals) >= 3 and tt is not None and norm(tt) in ("1/2", "0.5"),
            "every assorter value (0, 1/(2f), 1/2) lies in [0, 1/(2f)] for every share f in (0,1]; null mean 1/2", node=lam, values=shown)
-    # has_one_vote
-    hov = chk.fn(REL, "CVR.has_one_vote")
+    # has_one_vote -- on the canonical form (alias temporaries inlined), as one term:
+    #   0 if the contest is absent else (1 if sum(COMP) == 1 else 0), COMP = [truthiness of the mark, 0 if the candidate is absent]
+    from ..canon import inline_aliases
+    hov0 = chk.fn(REL, "CVR.has_one_vote")
+    hov = inline_aliases(hov0)
     cs = aud.comps(hov)
     ok = False
     detail = {}
     if len(cs) == 1:
         elt, tgt, it, ifs = aud.single_gen(cs[0])
         c = norm(tgt)
-        t1 = Tx()
-        ev = t1.expr(elt)
+        ev = Tx().expr(elt)
         want = Tx().expr(ast.parse(f"(1 if self.votes[contest_id][{c}] else 0) if ({c} in self.votes[contest_id]) else 0", mode="eval").body)
         same, n, cex = symx.equivalent(symx.prune(ev), symx.prune(want))
-        summed = isinstance(parent(cs[0]), ast.Call) and norm(parent(cs[0]).func) in ("np.sum", "sum", "numpy.sum")
-        rets = [r for r in hov.body if isinstance(r, ast.Return)]  # the final, unconditional return
-        vname = None
-        for s in hov.body:
-            if isinstance(s, ast.Assign) and cs[0] in list(ast.walk(s.value)):
-                vname = norm(s.targets[0])
-        rv = None
-        if len(rets) == 1:
-            tr = Tx(env={vname: E(S("V"))} if vname else {})
-            rv = symx.prune(tr.expr(rets[0].value))
-            wantr = symx.prune(Tx(env={"V": E(S("V"))}).expr(ast.parse("1 if V == 1 else 0", mode="eval").body))
-            same_r = symx.equivalent(rv, wantr)[0]
-        else:
-            same_r = False
-        detail = dict(elt=norm(elt), iter=norm(it), ret=norm(rets[0].value) if rets else None)
-        ok = same and summed and norm(it) == "candidates" and not ifs and same_r
+        COMP = "comp:" + norm(cs[0])
+        try:
+            code_t, _ = spec.term(hov)
+        except symx.Unsupported:
+            code_t = None
+        same_r = False
+        if code_t is not None:
+            Sm = sp.Function
+            # accept np.sum / sum / numpy.sum of the comprehension
+            def summed_of(v):
+                apps = [a for a in v.atoms(sp.core.function.AppliedUndef) if a.func.__name__ in ("np.sum", "sum", "numpy.sum")
+                        and len(a.args) == 1 and sp.sstr(a.args[0]) == COMP] if isinstance(v, sp.Basic) else []
+                return apps
+            leaves_ = [lf for _, lf in symx.leaves(code_t)]
+            tot = None
+            for a_ in cond_atoms_of(code_t):
+                if COMP in a_ and a_.startswith("eq(") and ("sum(" in a_):
+                    tot = a_
+            want_t = None
+            if tot is not None:
+                absent = symx.c_not(("atom", "in(contest_id,self.votes)"))
+                want_t = symx.I(absent, E(sp.Integer(0)), symx.I(("atom", tot), E(sp.Integer(1)), E(sp.Integer(0))))
+                same_r = symx.equivalent(code_t, symx.prune(want_t))[0] and tot.startswith("eq(1,") and tot.count("sum(") == 1
+        detail = dict(elt=norm(elt), iter=norm(it), term=repr(code_t)[:200])
+        ok = same and norm(it) == "candidates" and not ifs and same_r
     # totality on ballots lacking the contest (the property quantifies over them): no unguarded self.votes[contest_id]
     idxs = [n for n in ast.walk(hov) if isinstance(n, ast.Subscript) and norm(n.value) == "self.votes" and norm(n.slice) == "contest_id"]
     guard = None
@@ -247,6 +258,10 @@ def r3_supermajority(chk):
            unguarded_index_expressions=len(idxs) if not total else 0)
     chk.ob("C02.R3", W("CVR.has_one_vote"), "exactly-one-mark", ok,
            "has_one_vote == (number of listed candidates with a truthy mark, absent candidates counting 0) == 1", node=hov, **detail)
+
+
+def cond_atoms_of(v):
+    return sorted(symx.val_atoms(v))
 
 
 def r4_margin(chk):
